@@ -101,6 +101,22 @@ CHECKS = {
         "through `catch all`; find/find_last parts non-empty, start in range.",
         "DESIGN.md section 5 C15",
     ),
+    "C16": (
+        "exhaustive pool sweep with before/after deep snapshots of all "
+        "arguments + Hypothesis-generated alias-graph scenarios checked "
+        "against a Python heap model",
+        "Part 1 enumerates every function object and syntactic form over the "
+        "pool tuples that contain a mutable container (quick: arity <= 2 + "
+        "sample; thorough: all) and reports any argument change not made by a "
+        "documented mutator on its first argument. Part 2 generates random "
+        "sequences of definitions, aliases, nesting, mutators (also through "
+        "parameters and closures) and non-mutating producers; the interpreter "
+        "result for every variable must equal a heap model with reference "
+        "semantics. Exhaustive over the pool, sampled over scenarios.",
+        "Trusted: the snapshot function and the heap model (about 250 lines); "
+        "streams are not snapshotted; no cycles.",
+        "DESIGN.md section 5 C16",
+    ),
     "C17": (
         "exhaustive enumeration of the calendar (thorough) / key days of "
         "every year + Hypothesis-generated days, times and offsets (quick) "
